@@ -4,6 +4,7 @@ from tools.props import c05
 from tools.lv import hexs, hexlist, unhex
 
 LEVEL = "proof"
+RETRY_TIMING = True
 JOBS = 16
 CORRESPONDENCE = ("Model/Transports.lean (stub log, .eml/.json contents, sendmail argv/stdin/exit mapping) vs StubTransport, FileTransport, "
                   "SendmailTransport and their tokio variants; Model/Client.lean vs both SMTP clients on the same scripts (sync and async "
@@ -44,6 +45,11 @@ def gen(tier, rng):
             f[1] = mode
             cases.append("\t".join(f))
     return cases
+
+
+def timing_dependent(case):
+    # a real client against a real peer with read timeouts: a disagreement is re-run alone before it counts
+    return case.split("\t")[0] in ("pool", "wstall", "client", "tls", "sched")
 
 
 def nontrivial(case):
